@@ -221,3 +221,123 @@ func hasMethod(it *types.Interface, name string) bool {
 	}
 	return false
 }
+
+// c04DecoderPurity — C04.S13/S14.
+//
+// S13: the header block is a sequence of length-prefixed *byte strings* — any
+// byte content reads back. No branch of a function that decodes pairs depends
+// on the content of a decoded name or value (a UTF-8 check, a character test):
+// only lengths, positions and read errors decide a rejection.
+//
+// S14: what a decoder returns is the map of this block alone: every map a
+// header decoder returns is made by that call (or returned by another decoder
+// of the package) — never a package-level or cached map, which the callers
+// that merge into the decoded map (addHeadersToFrame) would fill for everybody.
+func c04DecoderPurity(ctx *core.Ctx, r *RT) {
+	ctx.Rule("C04.S13", "any byte content reads back: no branch of a pair decoder depends on the content of a decoded header name or value", 1)
+	ctx.Rule("C04.S14", "every header decoder returns a map made by that call (or by another decoder it calls)", 3)
+	var decoders []*ssa.Function
+	for _, fn := range r.Fns {
+		if fn.Pkg == r.Pkg && returnsHeaderMap(fn) && fn.Signature.Results().At(0).Type().String() == "map[string]string" && fn.Parent() == nil {
+			decoders = append(decoders, fn)
+		}
+	}
+	isDecoder := map[*ssa.Function]bool{}
+	for _, d := range decoders {
+		isDecoder[d] = true
+	}
+	fromDecoders := func(c ssax.Call) bool {
+		ts := r.Resolve(c)
+		if c.Static != nil {
+			ts = []*ssa.Function{c.Static}
+		}
+		if len(ts) == 0 {
+			return false
+		}
+		for _, t := range ts {
+			if !isDecoder[t] {
+				return false
+			}
+		}
+		return true
+	}
+	n13 := 0
+	for _, fn := range decoders {
+		// S14
+		bad := ""
+		for ret, vs := range ReturnedValues(fn) {
+			v := ssax.Strip(vs[0])
+			if k, isK := v.(*ssa.Const); isK && k.IsNil() {
+				continue
+			}
+			switch x := v.(type) {
+			case *ssa.MakeMap:
+				if x.Parent() == fn {
+					continue
+				}
+			case *ssa.Extract:
+				if c, ok := CallValue(x.Tuple); ok && fromDecoders(c) {
+					continue
+				}
+			case *ssa.Phi:
+				okAll := true
+				for _, e := range x.Edges {
+					e = ssax.Strip(e)
+					if k, isK := e.(*ssa.Const); isK && k.IsNil() {
+						continue
+					}
+					if mm, isMM := e.(*ssa.MakeMap); isMM && mm.Parent() == fn {
+						continue
+					}
+					if ex, isEx := e.(*ssa.Extract); isEx {
+						if c, ok := CallValue(ex.Tuple); ok && fromDecoders(c) {
+							continue
+						}
+					}
+					okAll = false
+				}
+				if okAll {
+					continue
+				}
+			}
+			bad = r.IPos(ret) + ": returns " + v.String()
+		}
+		ctx.Check(bad == "", "C04.S14", ssax.Name(fn)+" › returns a map of its own", fnPos(r, fn), "make(map) in the decoder, or the result of another decoder",
+			"the decoder hands out a map it did not make for this call ("+bad+"): the callers that add to a decoded map (addHeadersToFrame merges the new headers into it) fill the shared map, and every later decode of such a block returns headers that were never on the wire")
+		// S13
+		var content []ssa.Value
+		ssax.Instrs(fn, func(in ssa.Instruction) {
+			if cv, ok := in.(*ssa.Convert); ok {
+				if b, isB := cv.Type().Underlying().(*types.Basic); isB && b.Kind() == types.String {
+					if _, fromSlice := cv.X.Type().Underlying().(*types.Slice); fromSlice {
+						content = append(content, cv)
+					}
+				}
+			}
+		})
+		if len(content) == 0 {
+			continue
+		}
+		n13++
+		badC := ""
+		for _, b := range fn.Blocks {
+			if len(b.Instrs) == 0 {
+				continue
+			}
+			iff, ok := b.Instrs[len(b.Instrs)-1].(*ssa.If)
+			if !ok {
+				continue
+			}
+			for _, cv := range content {
+				if dependsOn(iff.Cond, cv, 0) {
+					badC = r.IPos(iff)
+				}
+			}
+		}
+		ctx.Check(badC == "", "C04.S13", ssax.Name(fn)+" › no branch on the content of a decoded string", fnPos(r, fn), sprintf("%d decoded string(s), no condition depends on them", len(content)),
+			"a branch at "+badC+" depends on the bytes of a decoded header name or value (e.g. a UTF-8 validity test): a header map with such content, which the writer encodes without complaint, is rejected on reading — what was written does not read back")
+	}
+	if n13 == 0 {
+		ctx.Unresolved("C04.S13", "pair decoder", "no decoder converting bytes to header strings found")
+	}
+}
